@@ -1134,6 +1134,101 @@ func c20T1Corr(c *hx.Ctx, w, h, orient, style int, x []int32, numPasses int, tag
 	}
 }
 
+// c20T1PipeCorr ties Model/T1Pipe.lean to the code: Encode with SetNMSEDecFractionalBits(fb) on x<<fb and
+// DecodeWithBitplane with SetOpenJPEGReconstruction(true) at maxBitplane = numbps, followed by /2 — the T1
+// configuration of the reversible pipeline (fb = 6).  It also checks, on the real code, the two facts the
+// pipeline relies on: the bytes equal those of the plain configuration on x, and the halved decoder output is x.
+func c20T1PipeCorr(c *hx.Ctx, fb, w, h, orient, style int, x []int32, numPasses int, tag string) {
+	sh := make([]int32, len(x))
+	for i, v := range x {
+		sh[i] = v << uint(fb)
+	}
+	var enc []byte
+	var err error
+	p, _ := hx.Guard(func() {
+		e := t1.NewT1Encoder(w, h, style)
+		e.SetOrientation(orient)
+		e.SetNMSEDecFractionalBits(fb)
+		enc, err = e.Encode(sh, numPasses, 0)
+	})
+	op := fmt.Sprintf("t1-encf %d %d %d %d %d %d %s", fb, w, h, orient, style, numPasses, c20Ints(sh))
+	switch {
+	case p:
+		c.Case(op, "panic")
+		return
+	case err != nil:
+		c.Case(op, "err")
+		return
+	}
+	c.Case(op, "ok "+hx.Hex(enc))
+	c.Count("t1pipe:" + tag)
+	if len(x) != w*h {
+		return
+	}
+	in := map[string]any{"fb": fb, "width": w, "height": h, "orientation": orient, "style": style, "numPasses": numPasses, "block": c20Ints(x)}
+	mb := c20MaxBitplane(x)
+	if style&(t1.CblkStylePterm) == 0 {
+		// (E) same bytes as the plain configuration on the unshifted block
+		var plain []byte
+		var perr error
+		pp, _ := hx.Guard(func() {
+			e := t1.NewT1Encoder(w, h, style)
+			e.SetOrientation(orient)
+			plain, perr = e.Encode(x, numPasses, 0)
+		})
+		c.Eval(fmt.Sprintf("t1pipe-enc %d %d %d %d %v", fb, w, h, style, x[:min(len(x), 8)]), mb >= 0)
+		if pp || perr != nil || hx.Hex(plain) != hx.Hex(enc) {
+			c.Fail(hx.Failure{Class: "t1-pipe-enc", What: "Encode(x<<fb) with SetNMSEDecFractionalBits(fb) differs from Encode(x)", Input: in,
+				Expected: hx.Hex(plain), Actual: hx.Hex(enc)})
+		}
+	}
+	if style&t1.CblkStyleTermAll != 0 || len(enc) == 0 {
+		return
+	}
+	numbps := mb + 1
+	dec := func(data []byte, np, mbd int, check bool) {
+		var got []int32
+		var derr error
+		pd, _ := hx.Guard(func() {
+			d := t1.NewT1Decoder(w, h, style)
+			d.SetOpenJPEGReconstruction(true)
+			d.SetOrientation(orient)
+			derr = d.DecodeWithBitplane(data, np, mbd, 0)
+			got = d.GetData()
+		})
+		op := fmt.Sprintf("t1-decoj %d %d %d %d %d %d %s", w, h, orient, style, np, mbd, hx.Hex(data))
+		switch {
+		case pd:
+			c.Case(op, "panic")
+		case derr != nil:
+			c.Case(op, "err")
+		default:
+			hv := make([]int32, len(got))
+			for i, v := range got {
+				hv[i] = v / 2
+			}
+			c.Case(op, "ok "+c20Ints(got)+" | "+c20Ints(hv))
+			if check {
+				c.Eval(fmt.Sprintf("t1pipe-dec %d %d %d %v", w, h, style, x[:min(len(x), 8)]), mb >= 0)
+				if !c20Eq(hv, x) {
+					c.Fail(hx.Failure{Class: "t1-pipe-roundtrip", What: "OpenJPEG-mode decode at maxBitplane = numbps, halved, differs from the block", Input: in,
+						Expected: c20Ints(x), Actual: c20Ints(hv)})
+				}
+			}
+		}
+	}
+	full := mb >= 0 && numPasses >= 3*(mb+1)-2 && style&t1.CblkStylePterm == 0
+	dec(enc, numPasses, numbps, full)
+	if mb < 0 {
+		dec(enc, 1, 1, true) // the pipeline sends one pass for an all-zero block
+	}
+	if len(enc) > 2 && c.R.Intn(4) == 0 {
+		m := append([]byte{}, enc[:c.R.Range(1, len(enc))]...)
+		m[c.R.Intn(len(m))] ^= byte(1 << uint(c.R.Intn(8)))
+		dec(m, numPasses, numbps, false)
+	}
+}
+
 // c20T1LayeredCorr ties Model/T1Layered.lean to the code for all 64 styles: EncodeLayered (normalised cumulative
 // rates, top bit-plane, bytes) and DecodeLayeredWithMode with the reported and with damaged pass lengths / data.
 func c20T1LayeredCorr(c *hx.Ctx, w, h, orient, style int, x []int32, numPasses int, tag string) {
@@ -1270,6 +1365,42 @@ func c20T1(c *hx.Ctx) {
 		x[c.R.Intn(len(x))] = int32(c.R.Range(64, 255)) // at least 7 planes: LAZY reaches its raw passes
 		c20T1LayeredCorr(c, 4, 5, style%4, style, x, 3*(c20MaxBitplane(x)+1)-2, "all-styles")
 	}
+	// the pipeline's T1 configuration (Model/T1Pipe.lean): fractional bits + OpenJPEG reconstruction
+	nP := 160
+	if c.Thorough() {
+		nP = 1500
+	}
+	for k := 0; k < nP; k++ {
+		w, h := c.R.Range(1, 8), c.R.Range(1, 8)
+		if k%9 == 0 {
+			h = c.R.Range(9, 13)
+		}
+		x := c20T1Block(c.R, w, h, c.R.Pick([]int{0, 1, 1, 2, 4, 4, 5}))
+		for i := range x {
+			x[i] >>= uint(c.R.Range(7, 22)) // |x| < 2^25 so that x<<6 stays an int32
+		}
+		mb := c20MaxBitplane(x)
+		np := 1
+		if mb >= 0 {
+			np = 3*(mb+1) - 2
+			if c.R.Intn(4) == 0 {
+				np = c.R.Range(1, np)
+			}
+		}
+		fb, style := 6, 0
+		if k%5 == 4 {
+			fb = c.R.Intn(7)
+		}
+		if k%4 == 3 {
+			style = 2 * c.R.Intn(32)
+		}
+		c20T1PipeCorr(c, fb, w, h, c.R.Intn(4), style, x, np, "random")
+	}
+	c20T1PipeCorr(c, 6, 2, 2, 0, 0, []int32{0, 0, 0, 0}, 1, "zero")
+	c20T1PipeCorr(c, 6, 5, 3, 1, 0, make([]int32, 15), 1, "zero")
+	c20T1PipeCorr(c, 6, 1, 7, 2, 0, make([]int32, 7), 1, "zero")
+	c20T1PipeCorr(c, 6, 2, 2, 0, 0, []int32{1, 2, 3}, 4, "bad-size")
+	c20T1PipeCorr(c, 6, 2, 1, 0, 0, []int32{-(1<<25 - 1), 1<<25 - 1}, 76, "max")
 	c20T1LayeredCorr(c, 2, 2, 0, 5, []int32{0, 0, 0, 0}, 1, "zero")
 	c20T1LayeredCorr(c, 2, 2, 0, 1, []int32{1, 2, 3}, 4, "bad-size")
 	c20T1Corr(c, 1, 1, 0, 0, []int32{0}, 1, "zero")
